@@ -5,5 +5,5 @@ CONSTANTS
   Taus <- TausT
   Deviations <- NoDev
   Emit = TRUE
-INVARIANTS TypeOK Completeness Bound TimeBound NoIdentity EmitVec
+INVARIANTS TypeOK Completeness Bound TimeBound ReuseExtracts NoIdentity EmitVec
 CHECK_DEADLOCK FALSE
